@@ -13,7 +13,22 @@ def kinds():
     from hszinc import Grid, XStr, NA, MARKER, REMOVE, Ref, Bin, Uri, Coordinate, Quantity
     inner = Grid(version='3.0')
     inner.column['x'] = {}
-    three = {'na': NA, 'list': [1.0], 'dict': {'a': 1.0}, 'grid': inner, 'xstr': XStr('hex', '00')}
+    import collections
+
+    class ListSub(list):
+        pass
+
+    class GridSub(Grid):
+        pass
+    inner2 = GridSub(version='3.0')
+    inner2.column['x'] = {}
+    od = collections.OrderedDict()
+    od['a'] = 1.0
+    dd = collections.defaultdict(float)
+    dd['a'] = 1.0
+    # subclasses of the 3.0-only kinds are values of those kinds (isinstance): the gate must see them too
+    three = {'na': NA, 'list': [1.0], 'dict': {'a': 1.0}, 'grid': inner, 'xstr': XStr('hex', '00'),
+             'dict(OrderedDict)': od, 'dict(defaultdict)': dd, 'list(subclass)': ListSub([1.0]), 'grid(subclass)': inner2}
     two = {'none': None, 'marker': MARKER, 'remove': REMOVE, 'bool': True, 'ref': Ref('a'), 'bin': Bin('text/plain'), 'uri': Uri('u'),
            'str': 's', 'date': datetime.date(2020, 1, 2), 'time': datetime.time(1, 2, 3), 'coord': Coordinate(1.0, 2.0),
            'qty': Quantity(1.0, 'kW'), 'float': 1.5, 'int': 2}
@@ -97,7 +112,7 @@ ENC = {'na': ('NA', 'z:'), 'list': ('[1]', [1]), 'dict': ('{a:1}', {'a': 'n:1'})
 
 def reader_decision(ver, kind, mode):
     import hszinc
-    z, j = ENC[kind]
+    z, j = ENC[kind.split('(')[0]]       # a subclass instance has the wire form of its kind
     if mode == hszinc.MODE_ZINC:
         return _try(lambda: hszinc.parse_scalar(z, mode=mode, version=ver))
     return _try(lambda: hszinc.parse_scalar(j, mode=mode, version=ver))
